@@ -121,7 +121,7 @@ impl<'a> W<'a> {
     fn raw_addr(&mut self, a: &RawAddr) -> &mut Self {
         match a {
             RawAddr::Valid(s) => self.t("V").addr(s),
-            RawAddr::Invalid => self.t("I"),
+            RawAddr::Invalid | RawAddr::Odd(_) => self.t("I"),
         }
     }
 
